@@ -4,7 +4,10 @@ import (
 	"bytes"
 	"context"
 	"crypto/sha1"
+	"encoding/json"
 	"fmt"
+	"os"
+	"os/exec"
 	"sort"
 	"strings"
 	"sync"
@@ -164,19 +167,49 @@ func meshCases(c *Ctx, im *Impl, cf *CaseFile) {
 // payload bytes on (36 + payload >= 65536) framer.SendData truncates the length prefix and the
 // receiver's framing of that link is lost.
 func observeOversize(c *Ctx, im *Impl) {
+	// in a child process: a framer that cannot take a 65535-byte frame kills the node's reader
+	// goroutine and with it the process
+	ctx, cancel := context.WithTimeout(context.Background(), 40*time.Second)
+	defer cancel()
+	out, err := exec.CommandContext(ctx, os.Args[0], "oversize").CombinedOutput()
+	var res []string
+	if i := bytes.LastIndex(out, []byte("RESULT ")); err == nil && i >= 0 && json.Unmarshal(bytes.TrimSpace(out[i+7:]), &res) == nil {
+		im.Extra["observation:payload-above-MTU-over-stream-link"] = res
+		return
+	}
+	tail := string(out)
+	if j := strings.Index(tail, "panic:"); j >= 0 {
+		tail = tail[j:]
+	}
+	if len(tail) > 400 {
+		tail = tail[:400]
+	}
+	im.Violate("a node process exchanging datagrams of 16384..65499 payload bytes (frames of up to 65535 bytes, inside the framer's range) over a stream link died: "+tail,
+		"framer-panic:node-process", fmt.Sprint(err))
+}
+
+// oversizeHelper is the child process of observeOversize; it prints RESULT <json list>.
+func oversizeHelper(_ []string) {
+	QuietLogs()
+	res := oversizeRun(NewRng(1))
+	j, _ := json.Marshal(res)
+	fmt.Println("RESULT " + string(j))
+}
+
+func oversizeRun(rng *Rng) []string {
 	mesh := NewMesh(FastConsts())
 	defer mesh.Shutdown()
 	a, b := mesh.AddNode("ov-a"), mesh.AddNode("ov-b")
-	if connectStream(a, b, 1.0, c.Rng, &shaperStats{}, nil, nil) != nil {
-		return
+	if connectStream(a, b, 1.0, rng, &shaperStats{}, nil, nil) != nil {
+		return nil
 	}
 	if !mesh.WaitRoutes(map[string][]string{"ov-a": {"ov-b"}, "ov-b": {"ov-a"}}, 10*time.Second) {
-		return
+		return nil
 	}
 	pb, err1 := b.ListenPacket("svc")
 	pa, err2 := a.ListenPacket("src")
 	if err1 != nil || err2 != nil {
-		return
+		return nil
 	}
 	got := make(chan int, 16)
 	go func() {
@@ -201,7 +234,7 @@ func observeOversize(c *Ctx, im *Impl) {
 	}
 	_ = pa.Close()
 	_ = pb.Close()
-	im.Extra["observation:payload-above-MTU-over-stream-link"] = res
+	return res
 }
 
 func runMesh(c *Ctx, im *Impl, cf *CaseFile, t *topo, perSender int, bigBudget *int, wireCases *int) {
